@@ -321,13 +321,40 @@ def class_graph_case(n, mask, rng: random.Random, root_cls, root_kind, variant="
             qual = "Node" if i < 2 else f"C{i}"
         classes.append({"id": i, "module": module, "qual": qual, "flavour": flav, "fields": []})
     named = []
+    # wrappers variant: most targets get ONE wrapped annotation shared by every class that refers to them
+    # (same object under the same field name f<j>: the node identity (type, unwrapped, var) is shared)
+    shared = {}
+    if variant == "wrappers":
+        for j in range(n):
+            if rng.random() < 0.7:
+                w = rng.choice(["newtype", "alias", "final", "aliasstr", "aliasstr_plain"])
+                body = wrap(rng.choice(["list", "dict", "tuplevar", "plain", "list", "dict"]), ("cls", j))
+                nm = f"S{j}"
+                if w == "newtype":
+                    t = ("newtype", MOD_A, nm, body); named.append(t)
+                elif w == "alias":
+                    t = ("alias", MOD_A, nm, body); named.append(t)
+                elif w == "aliasstr":
+                    t = ("aliasstr", MOD_A, nm, f"list[C{j}]"); named.append(t)
+                elif w == "aliasstr_plain":
+                    t = ("aliasstr", MOD_A, nm, f"C{j}"); named.append(t)
+                else:
+                    t = ("final", body)
+                shared[j] = (w, t)
     for i in range(n):
         for j in range(n):
             if not (mask >> (i * n + j)) & 1:
                 continue
             kind = rng.choice(EDGE_KINDS)
             target = ("cls", j)
-            if variant == "wrappers" and rng.random() < 0.6:
+            if j in shared and rng.random() < 0.85:
+                w, target = shared[j]
+                if w == "final":
+                    classes[i]["flavour"] = "dataclass"
+                    kind = "plain"
+                elif rng.random() < 0.7:
+                    kind = "plain"
+            elif variant == "wrappers" and rng.random() < 0.4:
                 w = rng.choice(["newtype", "alias", "aliasstr", "aliasstr_plain", "final"])
                 nm = f"W{i}{j}"
                 if w == "newtype":
